@@ -1079,8 +1079,74 @@ impl Property for C08 {
             o.fail = c09_across_reconnection((h % 3) as u8, (h / 3 % 3) as u8, 1 + (h / 9 % 3) as usize, (h / 27 % 5) as u8).filter(|f| f.sig.starts_with("C08/") || f.sig.starts_with("PANIC/"));
             o.class("inbound-exchanges-across-a-reconnection");
         }
+        if o.fail.is_none() {
+            let h = case_hash(case);
+            o.fail = c08_own_connect_limits_reached([1u16, 2, 5, 65535][(h / 3 % 4) as usize], [1u16, 2, 3, 8][(h / 12 % 4) as usize]);
+            o.class("the-client's-own-connect-limits-reached");
+        }
         o
     }
+}
+
+/// The broker goes exactly as far as the client's own CONNECT allows: Topic Alias values up to the
+/// announced Topic Alias Maximum `n`, and `k` = Receive Maximum inbound QoS 2 exchanges open at
+/// once, one of which is then re-delivered before its PUBREL. Every PUBLISH gets its PUBREC (the
+/// re-delivery a second one), every PUBREL its PUBCOMP, a QoS 1 PUBLISH its PUBACK; run() goes on.
+pub fn c08_own_connect_limits_reached(n: u16, k: u16) -> Option<Failure> {
+    use crate::world::World;
+    let plan = WritePlan::default();
+    let mut w = World::new();
+    let spec = ConnectSpec { topic_alias_maximum: Some(n), receive_maximum: Some(k), ..Default::default() };
+    if connect_and_run(&mut w, spec, &default_connack(), &plan).is_err() {
+        return None;
+    }
+    w.sync_wire();
+    let before = w.pkts.len();
+    let how = format!("CONNECT announced Topic Alias Maximum {n} and Receive Maximum {k}");
+    let publish = |qos: u8, pid: u16, alias: u16, dup: bool| {
+        rc::encode(&rc::Packet::Publish(rc::Publish { qos, dup, pid: Some(pid), topic: format!("c08/alias/{alias}"), topic_alias: Some(alias), payload: vec![1], ..Default::default() }), &rc::Form::canonical())
+    };
+    let count = |w: &mut World, f: &dyn Fn(&rc::Packet) -> bool| -> usize {
+        w.sync_wire();
+        w.pkts[before..].iter().filter(|p| p.decoded.as_ref().map(|d| f(d)).unwrap_or(false)).count()
+    };
+    for i in 0..k {
+        w.tick();
+        w.reader.feed(publish(2, 100 + i, n - (i % n.min(3)), false));
+        settle(&mut w, &plan, true);
+    }
+    if let Some(p) = first_panic(&w) {
+        return Some(Failure { sig: format!("PANIC/{}", panic_sig(&p)), msg: p });
+    }
+    let recs = count(&mut w, &|d| matches!(d, rc::Packet::Pubrec(_)));
+    if recs != k as usize {
+        return Some(Failure { sig: "C08/missing-pubrec/own-connect-limits".into(), msg: format!("{recs} PUBREC for {k} QoS 2 PUBLISH packets carrying Topic Alias values up to {n} (run: {:?}; {how})", w.run_result) });
+    }
+    // the first one again, before its PUBREL
+    w.tick();
+    w.reader.feed(publish(2, 100, n, true));
+    settle(&mut w, &plan, true);
+    let recs = count(&mut w, &|d| matches!(d, rc::Packet::Pubrec(_)));
+    if recs != k as usize + 1 {
+        return Some(Failure { sig: "C08/missing-pubrec/re-delivery-into-a-full-window".into(), msg: format!("{k} inbound QoS 2 exchanges open (the client's own Receive Maximum), the first PUBLISH sent again before its PUBREL: {} PUBREC in all, run: {:?} ({how})", recs, w.run_result) });
+    }
+    for i in 0..k {
+        w.tick();
+        w.reader.feed(rc::encode(&rc::Packet::Pubrel(rc::Ack { pid: 100 + i, ..Default::default() }), &rc::Form::short()));
+        settle(&mut w, &plan, true);
+    }
+    let comps = count(&mut w, &|d| matches!(d, rc::Packet::Pubcomp(_)));
+    if comps != k as usize {
+        return Some(Failure { sig: "C08/missing-pubcomp/own-connect-limits".into(), msg: format!("{comps} PUBCOMP for {k} PUBREL (run: {:?}; {how})", w.run_result) });
+    }
+    w.tick();
+    w.reader.feed(publish(1, 7, n, false));
+    settle(&mut w, &plan, true);
+    let acks = count(&mut w, &|d| matches!(d, rc::Packet::Puback(_)));
+    if acks != 1 {
+        return Some(Failure { sig: "C08/missing-puback/own-connect-limits".into(), msg: format!("{acks} PUBACK for a QoS 1 PUBLISH with Topic Alias {n} (run: {:?}; {how})", w.run_result) });
+    }
+    None
 }
 
 /// One read carries a QoS 1 PUBLISH, a QoS 2 PUBLISH, a PUBREL and then a packet that ends run()
@@ -1304,6 +1370,12 @@ impl Property for C09 {
             let h = case_hash(case);
             o.fail = c09_across_reconnection((h % 3) as u8, (h / 3 % 3) as u8, 1 + (h / 9 % 3) as usize, (h / 27 % 5) as u8);
             o.class("exchange-spanning-a-reconnection");
+        }
+        if o.fail.is_none() {
+            // a re-delivery into a window that is full by the client's own Receive Maximum
+            let h = case_hash(case);
+            o.fail = c08_own_connect_limits_reached([3u16, 65535][(h / 5 % 2) as usize], [1u16, 2, 3, 8][(h / 10 % 4) as usize]).filter(|f| f.sig.starts_with("C08/missing-pubrec") || f.sig.starts_with("PANIC/"));
+            o.class("re-delivery-into-a-full-window");
         }
         o
     }
